@@ -22,6 +22,7 @@ theorem reentry_step_ne (conds : List (Str × Str)) (st : Scan) (t : ETok) (h : 
   · exact h
   · split <;> simp_all
   · split <;> simp_all
+  · split <;> simp_all
   · exact h
 
 theorem reentry_foldl_ne (conds : List (Str × Str)) (ts : List ETok) (st : Scan) (h : st.reentry ≠ []) :
@@ -37,6 +38,7 @@ theorem waits_step_ne (conds : List (Str × Str)) (st : Scan) (t : ETok) (h : st
   · split <;> simp_all
   · split <;> simp_all
   · exact h
+  · split <;> simp_all
   · split <;> simp_all
   · split <;> simp_all
   · exact h
@@ -126,6 +128,7 @@ theorem edges_step_mono (conds : List (Str × Str)) (st : Scan) (t : ETok) (e : 
   · split <;> exact he
   · split <;> exact he
   · exact he
+  · split <;> exact he
   · split <;> exact he
   · split <;> exact he
   · exact he
